@@ -146,11 +146,6 @@ func (d *disconnectHandler) handleDisconnect() {
 	d.mu.Lock()
 	defer d.mu.Unlock()
 
-	// Only handle if we're the leader
-	if !d.election.isLeader.Load() {
-		return
-	}
-
 	// Calculate grace period
 	gracePeriod := d.election.cfg.DisconnectGracePeriod
 	if gracePeriod == 0 {
@@ -158,6 +153,21 @@ func (d *disconnectHandler) handleDisconnect() {
 		if gracePeriod < 5*time.Second {
 			gracePeriod = 5 * time.Second
 		}
+	}
+
+	// Only handle if we're the leader
+	if !d.election.isLeader.Load() {
+		// A timer armed while this instance was leading may still be pending,
+		// and the instance can lead again before it fires: the grace period
+		// counts from the latest disconnect notification, so move it along.
+		if d.timer != nil {
+			d.timer.Stop()
+			d.disconnectedAt = time.Now()
+			d.timer = time.AfterFunc(gracePeriod, func() {
+				d.handleGracePeriodExpired()
+			})
+		}
+		return
 	}
 
 	log := d.election.getLogger()
